@@ -368,6 +368,13 @@ fn input_value(t: &mut Tape) -> MV {
                     f.push((key, lit(t)));
                 }
             }
+            // a top-level document is merged key by key even when one of its keys is the
+            // reserved function marker (it is not a function object: it is the inputs record)
+            if t.chance(1, 6) {
+                let src = ["sum", "x => x + 1", "(a, b) => a", "not a function("][t.pick(4)];
+                let at = t.pick(f.len() + 1);
+                f.insert(at, ("__blots_function".to_string(), MV::Str(src.into())));
+            }
             MV::Rec(f)
         }
         3 => num(t.pick(100) as f64),
